@@ -51,8 +51,15 @@ bool MatrixMul::is_canonical(const RCP<const Basic> &scalar,
     }
     size_t num_diag = 0;
     size_t num_dense = 0;
+    // A ZeroMatrix factor is only allowed if the size of the product (and
+    // hence of the zero matrix it is equal to) is unknown
+    bool size_known
+        = !size(down_cast<const MatrixExpr &>(*factors.front())).first.is_null()
+          && !size(down_cast<const MatrixExpr &>(*factors.back()))
+                  .second.is_null();
     for (auto factor : factors) {
-        if (is_a<ZeroMatrix>(*factor) || is_a<IdentityMatrix>(*factor)
+        if ((is_a<ZeroMatrix>(*factor) && size_known)
+            || (is_a<IdentityMatrix>(*factor) && factors.size() > 1)
             || is_a<MatrixMul>(*factor)) {
             return false;
         } else if (is_a<DiagonalMatrix>(*factor)) {
@@ -195,10 +202,19 @@ RCP<const MatrixExpr> matrix_mul(const vec_basic &factors)
 
     check_matching_mul_sizes(expanded);
 
-    // Handle ZeroMatrix first
-    for (auto &factor : factors) {
+    // Handle ZeroMatrix first: the product is the zero matrix with the rows
+    // of the first and the columns of the last factor. If one of them is
+    // unknown the product is kept unevaluated.
+    for (auto &factor : expanded) {
         if (is_a<ZeroMatrix>(*factor)) {
-            return rcp_static_cast<const MatrixExpr>(factor);
+            auto rows
+                = size(down_cast<const MatrixExpr &>(*expanded.front())).first;
+            auto cols
+                = size(down_cast<const MatrixExpr &>(*expanded.back())).second;
+            if (!rows.is_null() && !cols.is_null()) {
+                return zero_matrix(rows, cols);
+            }
+            break;
         }
     }
 
@@ -250,7 +266,11 @@ RCP<const MatrixExpr> matrix_mul(const vec_basic &factors)
         return rcp_static_cast<const MatrixExpr>(keep[0]);
     }
     if (keep.size() == 0 && !ident.is_null()) {
-        return ident;
+        if (eq(*scalar, *one)) {
+            return ident;
+        }
+        // scalar * I is kept as MatrixMul(scalar, {I})
+        keep.push_back(ident);
     }
     return make_rcp<const MatrixMul>(scalar, keep);
 }
